@@ -66,76 +66,7 @@ def is_std(t):
 # &k, written locals %k, and every local that only names a value is replaced by that value.  Templates name the written
 # locals {A}, {B}, ...: a template matches a key when the placeholders can be bound to %k names, consistently over all
 # templates of one rule -- so renaming a local, or giving an intermediate value a name, changes nothing.
-def tmpl(t):
-    out, i = "", 0
-    for m in re.finditer(r"\{([A-Za-z])\}", t):
-        out += re.escape(t[i:m.start()])
-        out += "(?P<%s_%d>%s\\d+)" % (m.group(1), m.start(), "%" if m.group(1).isupper() else "&")
-        i = m.end()
-    return re.compile(out + re.escape(t[i:]) + r"\Z")
-
-
-def bind(keys, templates, env=None):
-    """every template matches some key, with one consistent binding of the placeholders; returns the binding or None"""
-    env = dict(env or {})
-
-    def rec(i, env):
-        if i == len(templates):
-            return env
-        rx = tmpl(templates[i])
-        for k in keys:
-            m = rx.match(k)
-            if not m:
-                continue
-            e2, ok = dict(env), True
-            for g, v in m.groupdict().items():
-                nm = g.split("_")[0]
-                if e2.get(nm, v) != v or (nm not in e2 and v in e2.values()):
-                    ok = False
-                    break
-                e2[nm] = v
-            if ok:
-                r = rec(i + 1, e2)
-                if r is not None:
-                    return r
-        return None
-    return rec(0, env)
-
-
-def fill_in(t, env):
-    return re.sub(r"\{([A-Za-z])\}", lambda m: env.get(m.group(1), m.group(0)), t)
-
-
-def effects(body):
-    """keys of all state-changing expressions (assignments, compound assignments, ++/--, operator= / += calls), in source order"""
-    out = []
-    for x, p in R.find(body, lambda x: x.get("k") in ("Assign", "CompoundAssign") or (x.get("k") == "Unary" and x.get("op") in ("++", "--")) or
-                       (x.get("k") == "Call" and x.get("op") in ("=", "+=", "-=", "*=", "/=", "++", "--"))):
-        out.append((x.get("line") or 0, len(out), R.key(x), x, p))
-    out.sort(key=lambda t: (t[0], t[1]))
-    return [(k, x, p) for _, _, k, x, p in out]
-
-
-def decls_of(body):
-    return {dd["name"]: dd.get("init") for x, _ in R.find(body, lambda x: x.get("k") == "Decl") for dd in x["decls"] if dd.get("name")}
-
-
-def loops_of(body):
-    ls = [x for x, _ in R.find(body, lambda x: x.get("k") in ("For", "ForRange", "While", "Do"))]
-    return sorted(ls, key=lambda x: x.get("line") or 0)
-
-
-def for_shape(lp):
-    init = R.strip(lp.get("init"))
-    iv = init["decls"][0]["name"] if init is not None and init.get("k") == "Decl" and init.get("decls") else None
-    i0 = R.key(init["decls"][0].get("init")) if iv else None
-    return iv, i0, R.key(lp.get("cond")), R.key(lp.get("inc"))
-
-
-def counts_up(lp, bound):
-    """for (#k = 0; #k < bound; ++#k) in any spelling of the increment"""
-    iv, i0, cond, inc = for_shape(lp)
-    return iv is not None and i0 == "0" and cond == "(%s < %s)" % (iv, bound) and inc in ("(++%s)" % iv, "(%s++)" % iv, "(%s += 1)" % iv)
+tmpl, bind, fill_in, effects, decls_of, loops_of, for_shape, counts_up = R.tmpl, R.bind, R.fill_in, R.effects, R.decls_of, R.loops_of, R.for_shape, R.counts_up
 
 
 def enclosing_if(path):
